@@ -341,9 +341,8 @@ theorem expandRecursive_safe (W : World) {comp : Component} {chain : List FieldR
     cases hact : c.active with
     | none =>
       simp only [Option.isNone_none, if_true]
-      have hact' := activate_ok (c := { active := none, vertices := c.vertices, values := c.values,
-        suspended := none :: c.suspended, foldCounts := c.foldCounts, foldedValues := c.foldedValues,
-        importedTags := c.importedTags }) (vid := e.fromVid) (v := v) hv
+      have hact' := @activate_ok ⟨none, c.vertices, c.values, none :: c.suspended, c.foldCounts,
+        c.foldedValues, c.importedTags⟩ e.fromVid v hv
       rw [hact']
       simp only [Safe.ok_iff]
       refine ⟨⟨hok.toCtxCore.congr rfl rfl rfl rfl rfl, ?_⟩, ?_⟩
@@ -382,7 +381,9 @@ theorem expandRecursive_safe (W : World) {comp : Component} {chain : List FieldR
     simp only [het]
     have hinv0 : RecInv W comp chain st e.fromVid toV.preType (init.map fun c => PCtx.mk c []) := by
       intro x hx
-      obtain ⟨c, hcm, rfl⟩ := (mem_unpackList_leaves (g := fun c => c)).mp hx
+      obtain ⟨c, hcm, hxc⟩ := (mem_unpackList_leaves (g := fun c => c)).mp hx
+      have hxc' : x = c := hxc
+      rw [hxc']
       exact (hinit c hcm).1
     have htop0 : ∀ p ∈ (init.map fun c => PCtx.mk c []), activeOK W.D p.top.active fromV.typeName = true := by
       intro p hp
